@@ -23,7 +23,6 @@
 (* run through the fixed point (C07).                                      *)
 (***************************************************************************)
 EXTENDS Palette, Json, TLC
-LOCAL INSTANCE SequencesExt
 
 CONSTANTS Fam, Sizes
 
@@ -141,14 +140,14 @@ RtCases == {[k |-> "rt", kind |-> kd, n |-> n] : kd \in (IF Fam = "roundtrip" TH
 CanonCases == {[k |-> "canon", n |-> n, ord |-> o] : n \in Sizes, o \in {"Lexicographic", "LengthFirstLexicographic"}}
 
 Cases == IF Fam = "dup" THEN DupCases ELSE IF Fam = "canon" THEN CanonCases ELSE IF Fam \in {"roundtrip", "builder"} THEN RtCases ELSE {[k |-> "big", n |-> 0, c |-> x] : x \in UNION {Big(Fam, m) : m \in Sizes}}
-CaseSeq == SetToSeq(Cases)
 
 (* judged in a successor state: TLC evaluates initial states on its small main-thread stack *)
-VARIABLES ci, go
-Init == ci \in 1..Len(CaseSeq) /\ go = FALSE
-Next == ~go /\ go' = TRUE /\ UNCHANGED ci
-Spec == Init /\ [][Next]_<<ci, go>>
-C == CaseSeq[ci]
+(* the case itself is the state (no detour through a sequence of the cases) *)
+VARIABLES cs, go
+Init == cs \in Cases /\ go = FALSE
+Next == ~go /\ go' = TRUE /\ UNCHANGED cs
+Spec == Init /\ [][Next]_<<cs, go>>
+C == cs
 
 (* ---------- invariants (Design |= Prop at scale) ---------- *)
 DupTI == DupItem(C)
